@@ -37,7 +37,7 @@ func (e *fnEnc) strEq(a, b Term) Term {
 	if !e.declSeen[f] {
 		e.declSeen[f] = true
 		e.needSort(SStr)
-		e.decls = append(e.decls, "(define-fun streq ((a Str) (b Str)) Bool (and (= (s-len a) (s-len b)) (forall ((i Int)) (=> (and (<= 0 i) (< i (s-len a))) (= (select (s-arr a) (+ (s-off a) i)) (select (s-arr b) (+ (s-off b) i)))))))")
+		e.decls = append(e.decls, "(define-fun streq ((a Str) (b Str)) Bool (and (= (s-len a) (s-len b)) (forall ((i Int)) (! (=> (and (<= 0 i) (< i (s-len a))) (= (str.at a i) (str.at b i))) :pattern ((str.at a i)) :pattern ((str.at b i))))))")
 	}
 	return app(SBool, "streq", a, b)
 }
@@ -59,8 +59,9 @@ func (e *fnEnc) strCompare(a, b Term) Term {
 		e.declareFun("lexcmp", []Sort{SStr, SStr}, SInt)
 		e.strEq(e.freshConst("s", SStr), e.freshConst("s", SStr)) // make sure streq is defined
 		e.decls = append(e.decls,
-			"(assert (forall ((a Str) (b Str)) (! (and (<= (- 1) (lexcmp a b)) (<= (lexcmp a b) 1) (= (= (lexcmp a b) 0) (streq a b)) (= (lexcmp a b) (- (lexcmp b a)))) :pattern ((lexcmp a b)))))")
-		e.assume("lexcmp: bytewise lexicographic comparison is axiomatised (range, zero iff equal, antisymmetry)")
+			"(assert (forall ((a Str) (b Str)) (! (and (<= (- 1) (lexcmp a b)) (<= (lexcmp a b) 1) (= (= (lexcmp a b) 0) (streq a b)) (= (lexcmp a b) (- (lexcmp b a)))) :pattern ((lexcmp a b)))))",
+			"(assert (forall ((a Str) (b Str) (c Str)) (! (=> (and (<= (lexcmp a b) 0) (<= (lexcmp b c) 0)) (and (<= (lexcmp a c) 0) (=> (or (< (lexcmp a b) 0) (< (lexcmp b c) 0)) (< (lexcmp a c) 0)))) :pattern ((lexcmp a b) (lexcmp b c)))))")
+		e.assume("lexcmp: bytewise lexicographic comparison is axiomatised as a total order (range {-1,0,1}, zero iff equal, antisymmetric, transitive)")
 	}
 	return app(SInt, "lexcmp", a, b)
 }
@@ -277,6 +278,22 @@ func (e *fnEnc) calleeSig(name string, cc *ssa.CallCommon) *types.Signature {
 	return nil
 }
 
+// pureApp: results of a pure (deterministic, heap-independent) function as
+// applications of uninterpreted functions of its arguments.
+func (e *fnEnc) pureApp(name string, sig *types.Signature, args []Term) []Term {
+	var as []Sort
+	for _, a := range args {
+		as = append(as, a.Sort)
+	}
+	var out []Term
+	for i := 0; i < sig.Results().Len(); i++ {
+		rs := e.sortOf(sig.Results().At(i).Type())
+		f := e.declareFun(fmt.Sprintf("pure.%s.%d", shortCallee(name), i), as, rs)
+		out = append(out, app(rs, f, args...))
+	}
+	return out
+}
+
 func (e *fnEnc) applyContract(c *blockCtx, in ssa.Instruction, name string, ctr *FuncContract, args []Term, argTypes []types.Type, cc *ssa.CallCommon) []Term {
 	sig := e.calleeSig(name, cc)
 	invoke := cc != nil && cc.IsInvoke()
@@ -307,6 +324,12 @@ func (e *fnEnc) applyContract(c *blockCtx, in ssa.Instruction, name string, ctr 
 	// results
 	rn := resultNames(sig)
 	res := e.resultTerms(c, in, sig, "call."+shortCallee(name))
+	if ctr.Options["pure"] != "" {
+		for i, p := range e.pureApp(name, sig, args) {
+			e.assert(eq(res[i], p))
+		}
+		e.assume("pure function (deterministic, reads only its arguments; checked syntactically): " + shortCallee(name))
+	}
 	post := &specEnv{enc: e, vars: map[string]SVal{}, st: c.st, old: pre, pkg: ctr.Pkg}
 	for k, v := range vars {
 		post.vars[k] = v
